@@ -772,6 +772,30 @@ func (g *gen) tplGC() {
 	g.add(Op{Kind: "gc", PreferIndex: r.chance(60)})
 }
 
+// tplStaleIndexGC (C14, D19): remove a built target, let a full load rewrite the index without it, put the target back,
+// collect with the index-only load `dawn gc` uses, build the target: its record must still be there
+func (g *gen) tplStaleIndexGC() {
+	var cands []*Tgt
+	for _, t := range g.p.live() {
+		if len(g.p.dependents(t.Label())) == 0 && !t.Default && !t.Always {
+			cands = append(cands, t)
+		}
+	}
+	if len(cands) == 0 {
+		g.tplGC()
+		return
+	}
+	t := cands[g.r.below(len(cands))]
+	g.add(g.build(t.Label()))
+	g.edit(Edit{Kind: "rmtarget", Target: t.Label()})
+	if others := g.p.roots(); len(others) > 0 {
+		g.add(g.build(g.r.pick(others)))
+	}
+	g.edit(Edit{Kind: "addtarget", Target: t.Label()})
+	g.add(Op{Kind: "gc", PreferIndex: true})
+	g.add(g.build(t.Label()))
+}
+
 // tplFault (C03): a failing body or a crash at an arbitrary hook point, then the recovery build
 func (g *gen) tplFault() {
 	r := g.r
@@ -888,6 +912,8 @@ func genHistory(r *rng, prop string, nops int) *History {
 			}
 		case "C14":
 			switch {
+			case x < 8:
+				g.tplStaleIndexGC()
 			case x < 35:
 				g.tplGC()
 			case x < 45:
